@@ -110,11 +110,11 @@ class C12Combine(Scenario):
             out = self.out[step["to"]]
             if op == "add":
                 if kind == "bloom":
-                    tgt.add(key)
+                    structs.api_add(tgt, key, step.get("alt"))
                     self.c.add(key)
                     out[step["k"]] = 1
                 else:
-                    tgt.add(key, step["n"])
+                    structs.api_add(tgt, key, step.get("alt"), n=step["n"])
                     self.c.add(key, step["n"])
                     out[step["k"]] = out.get(step["k"], 0) + step["n"]
             else:
@@ -123,7 +123,7 @@ class C12Combine(Scenario):
                     self.ctx.probe("over_removal")
                 elif kind == "bloom" or out.get(step["k"], 0) < step["n"]:
                     return "skip"
-                tgt.remove(key, step["n"])
+                structs.api_remove(tgt, key, step["n"], step.get("alt"))
                 self.c.remove(key, step["n"])
                 out[step["k"]] = out.get(step["k"], 0) - step["n"]
             return {"r": "ok"}
